@@ -181,7 +181,23 @@ func runC18(c *Ctx) {
 		if f == ctor {
 			continue
 		}
-		isWriter := recvIs(f, lbT) && f.Signature.Params().Len() == 1 && f.Signature.Results().Len() == 0
+		// the writer: a method whose stores to the buffer are append(buffer, ...) or re-slices of the buffer
+		isWriter := recvIs(f, lbT)
+		for _, in := range DirectSites(f, StoreTo("buffer", fBuffer)) {
+			v, _ := StoredValue(in, fBuffer)
+			okV := false
+			switch y := stripConv(v).(type) {
+			case *ssa.Call:
+				if b, isB := y.Call.Value.(*ssa.Builtin); isB && b.Name() == "append" && len(y.Call.Args) > 0 && PathOf(y.Call.Args[0]).LastField() == fBuffer {
+					okV = true
+				}
+			case *ssa.Slice:
+				okV = true
+			}
+			if !okV {
+				isWriter = false
+			}
+		}
 		c.Check(isWriter, rBuf, "buffer-writer:"+p.FuncKey(f), FirstPos(p, f), "buffer stored by the writer", "the log buffer is replaced outside the writer/constructor")
 		if isWriter {
 			writers = append(writers, f)
